@@ -288,7 +288,7 @@ MUTATIONS += [
     dict(id="r4g-output-transpose", file="cirkit/backend/torch/circuits.py", old="        y = y.transpose(0, 1)  # (B, O, K)", new="        y = y.transpose(0, 2)  # (B, O, K)", expect={"C01": ["R4g:cirkit.backend.torch.circuits.TorchCircuit._evaluate_layers:outputs"]}),
     dict(id="r4l-sum-sample-layout", patch="seeded/C15a/patch.diff", expect={"C15": ["R4l:cirkit.backend.torch.layers.inner.TorchSumLayer:layout-sample"]}),
     dict(id="r5c-index-range", patch="seeded/C14b/patch.diff", expect={"C14": ["R5c:cirkit.backend.torch.parameters.nodes.TorchIndexParameter:buffer:_indices"]}),
-    dict(id="r11d-global-max", patch="seeded/C12b/patch.diff", expect={"C12": ["R11d:cirkit.backend.torch.parameters.nodes.TorchSoftmaxParameter.forward"], "C01": ["R11d:"]}),
+    dict(id="r11d-global-max", patch="seeded/C12b/patch.diff", expect={"C12": ["R11d:cirkit.backend.torch.parameters.nodes.TorchSoftmaxParameter.forward"], "C01": ["R11d:"]}, allow_others=True),
     dict(id="r13c-hmm-position", patch="seeded/C12a/patch.diff", expect={"C12": ["R13c:cirkit.templates.pgms.hmm"], "C20": ["R13c:cirkit.templates.pgms.hmm"]}),
     dict(id="r13c-hmm-zip", patch="seeded/C20a/patch.diff", expect={"C20": ["R13"], "C12": ["R13"]}),
     dict(id="r13d-filtered-enumerate", patch="seeded/C11a/patch.diff", expect={"C11": ["R13d:cirkit.backend.torch.queries.IntegrateQuery.scopes_to_mask"]}),
@@ -361,7 +361,7 @@ MUTATIONS += [
     dict(id="q-r5d-ramp-sliced-from-iota", quiet=True, file=TNODES, old="        arange = torch.arange(1, degp1).to(x)  # shape (deg,).", new="        arange = torch.arange(degp1)[1:].to(x)  # shape (deg,).", expect={}),
     # ---- wave-3 seeds as kept
     dict(id="w3-c02c-addressbook-prefix", patch="seeded/C02c/patch.diff", expect={"C14": ["R3g:"], "C01": ["R3g:"], "C02": ["R3g:"]}),
-    dict(id="w3-c02d-stacked-sorted", patch="seeded/C02d/patch.diff", expect={"C01": ["R3g:"], "C02": ["R3g:"]}),
+    dict(id="w3-c02d-stacked-sorted", patch="seeded/C02d/patch.diff", expect={"C01": ["R3g:"], "C02": ["R3g:"]}, allow_others=True),
     dict(id="w3-c03c-einsum-index-order", patch="seeded/C03c/patch.diff", expect={"C01": ["R12b:"], "C03": ["R12b:"], "C02": ["R12b:"]}),
     dict(id="w3-c03d-integrate-topological-outputs", patch="seeded/C03d/patch.diff", expect={"C03": ["R7e:"]}),
     dict(id="w3-c06c-dtype-fold-key", patch="seeded/C06c/patch.diff", expect={"C06": ["R3d:"], "C02": ["R3d:"], "C13": ["R3d:"], "C17": ["R3d:"]}),
